@@ -178,6 +178,9 @@ def run(ctx, rep):
     r20b(ctx, rep)
     r20c(ctx, rep)
     tables.r11f(ctx, rep, rule="R20d")
+    from . import C11
+    C11.r11i(ctx, rep, rule="R20e")
+    rep.rules["R20e"] = "brackets in comments stay out of the token stream: " + rep.rules["R20e"]
     from . import C06
     C06.r06a_restricted(ctx, rep, "R20p", ["marwood::syntax::"], "neither highlighter call panics", 6)
     rep.not_decided += ["the counter arithmetic (that the count is zero exactly at the properly nested partner) and the byte-indexed cursor lookup (value-level)",
